@@ -23,6 +23,11 @@ pub fn components() -> Vec<String> {
             v.push(d);
         }
     }
+    v.push("()()".into());
+    v.push(" ()()".into());
+    v.push("()\n()".into());
+    v.push("一".into());
+    v.push("|".into());
     v.push("a".into());
     v.push("+".into());
     v.push("*".into());
@@ -86,13 +91,16 @@ impl Prop for C10 {
         let mut v = vec![];
         v.push(Scope::new(
             "pairs",
-            "all ordered pairs of components x {beside, below} x gap 1..3",
+            "all ordered pairs of components x {beside, below, below with B indented by 1 or 2 columns, beside with A lowered by 1 or 2 rows} x gap 1..3",
             |f| {
                 let k = components();
                 for a in 0..k.len() {
                     for b in 0..k.len() {
-                        for layout in 0..2 {
+                        for layout in [0i64, 1, 3, 4, 5, 6] {
                             for gap in 1..=3 {
+                                if layout >= 3 && gap == 3 {
+                                    continue;
+                                }
                                 f(Case::snx("", vec![layout, gap], vec![k[a].clone(), k[b].clone()]));
                             }
                         }
@@ -210,9 +218,34 @@ impl Prop for C10 {
         let (joint_s, dx, dy, ox, oy) = if layout == 0 {
             let (j, off) = enumr::beside(a, b, gap);
             (j, off as f64 * s, 0.0, off, 0)
-        } else {
+        } else if layout == 1 {
             let (j, off) = enumr::below(a, b, gap);
             (j, 0.0, off as f64 * 2.0 * s, 0, off)
+        } else if layout >= 5 {
+            // side by side with A lowered by 1 or 2 rows (layout 5, 6): B extends above A
+            let low = (layout - 4) as usize;
+            let al = enumr::shift(a, 0, low);
+            let (j, off) = enumr::beside(&al, b, gap);
+            let joint = match render(cx, &j) {
+                Some(x) => x,
+                None => return,
+            };
+            let (mut cw, mut ch) = canvas(&[(a, 0, low), (b, off, 0)]);
+            if has_quote(a) || has_quote(b) {
+                cw = joint.w;
+                ch = joint.h;
+            }
+            expect_union(cx, "A (lowered) beside B", &[(&da, 0.0, low as f64 * 2.0 * s), (&db, off as f64 * s, 0.0)], &joint, cw, ch);
+            if !da.elems.is_empty() && !db.elems.is_empty() {
+                cx.outcome(&joint.skeleton());
+            }
+            return;
+        } else {
+            // stacked with B indented by 1 or 2 columns (layout 3, 4)
+            let ind = (layout - 2) as usize;
+            let bi = enumr::shift(b, ind, 0);
+            let (j, off) = enumr::below(a, &bi, gap);
+            (j, ind as f64 * s, off as f64 * 2.0 * s, ind, off)
         };
         let joint = match render(cx, &joint_s) {
             Some(x) => x,
@@ -226,7 +259,7 @@ impl Prop for C10 {
         }
         expect_union(
             cx,
-            if layout == 0 { "A beside B" } else { "A above B" },
+            if layout == 0 { "A beside B" } else if layout == 1 { "A above B" } else { "A above B (B indented)" },
             &[(&da, 0.0, 0.0), (&db, dx, dy)],
             &joint,
             cw,
